@@ -2,7 +2,7 @@
 SPECIFICATION GSpec
 CONSTANTS
   Locals = {"l1"}
-  Doms = {"d1"}
+  Doms = {"d3"}
   EnvLocals = {"l2"}
   RuleVars = {"lower"}
   EnvVars = {"lower", "upper", "nfc", "nfd", "alabel"}
@@ -22,6 +22,9 @@ CONSTANTS
   Salts = {0}
   DefaultLast = TRUE
   BareMaps = TRUE
+  MaxScopeMods = 1
+  TableKinds = {"static", "regexp"}
+  SenderCap = 99
   PrintExpected = FALSE
 CHECK_DEADLOCK FALSE
 INVARIANT TheoremsHold
